@@ -207,10 +207,12 @@ var def = pbt.Def[Case]{Name: "publisher-model", Gen: gen, Run: judge}
 func TestProp(t *testing.T) {
 	outerT = t
 	pbt.Check(t, run, def, 40000, 1500000)
+	pbt.Check(t, run, defRace, 3000, 100000)
 }
 
 func TestReplay(t *testing.T) {
 	outerT = t
 	pbt.Register(run, def)
+	pbt.Register(run, defRace)
 	run.Replay(t)
 }
